@@ -17,7 +17,10 @@ fn worker_plain(seed: u64) -> u64 {
             for i in 0..20u64 {
                 v.push(i ^ seed);
             }
-            acc += *x + s.iter().sum::<u64>() + st.len() as u64 + v.iter().sum::<u64>();
+            // enough to make the arena chain a second and a third chunk (the slow path with a non-empty chunk list)
+            let big = b.alloc_slice_fill_copy(100, seed);
+            let bigger = b.alloc_slice_fill_copy(300, round);
+            acc += *x + s.iter().sum::<u64>() + st.len() as u64 + v.iter().sum::<u64>() + big[0] + bigger[0];
         }
         b.reset();
     }
